@@ -148,8 +148,18 @@ package fox
 //@   ensures same(result, escPath(u)) && len(result) >= 1
 //@ extern Base in path pure
 //@   ensures same(result, pathBase(path)) && len(result) >= 1 && (len(result) > 1 ==> forall i int :: {result[i]} 0 <= i && i < len(result) ==> result[i] != '/')
-//@ extern localRedirect
+//@ extern hexEscapeNonASCII pure
+//@ extern htmlEscape pure
+//@ -- the redirect response: the given status, once, and a Location made of the given reference followed by
+//@ -- '?' and the request's raw query when there is one
+//@ func localRedirect props C08 partial
+//@   requires w != nil && r != nil
+//@   requires safety-url: r.URL != nil
 //@   modifies heap, wFinal, wFirst, wInfo, wBody
+//@   assert-at call hexEscapeNonASCII#1 : keeps-query: (len(r.URL.RawQuery) == 0 ==> same(arg_s, old(path))) && (len(r.URL.RawQuery) > 0 ==> len(arg_s) == len(old(path)) + 1 + len(r.URL.RawQuery) && arg_s[len(old(path))] == '?')
+//@   assert-at call hexEscapeNonASCII#1 : keeps-query-bytes: len(r.URL.RawQuery) > 0 ==> (forall i int :: {arg_s[i]} 0 <= i && i < len(old(path)) ==> arg_s[i] == old(path)[i]) && (forall i int :: {r.URL.RawQuery[i]} 0 <= i && i < len(r.URL.RawQuery) ==> arg_s[len(old(path)) + 1 + i] == r.URL.RawQuery[i])
+//@   assert-at call (Header).Set#1 : location: same(arg_key, "Location")
+//@   assert-at call ResponseWriter.WriteHeader#1 : status: arg_self == w && arg_statusCode == code && wFinal[w] == old(wFinal[w]) && wBody[w] == old(wBody[w])
 
 //@ func defaultRedirectTrailingSlashHandler props C08 partial
 //@   requires c != nil
